@@ -21,6 +21,7 @@ import (
 	cb "github.com/alibaba/sentinel-golang/core/circuitbreaker"
 	"github.com/alibaba/sentinel-golang/core/flow"
 	"github.com/alibaba/sentinel-golang/core/hotspot"
+	"github.com/alibaba/sentinel-golang/core/system_metric"
 
 	"verifharness/env"
 	"verifharness/props"
@@ -152,6 +153,26 @@ func subjects() []*subject {
 			return []func() string{func() string { return reqObs(st, "r") }, tickOp(1), tickOp(300), tickOp(1000)}[op]()
 		},
 		Load:   func(edit string, per bool) { loadFlow(flowRules(edit, tx), per) },
+		Init:   []string{"[X]", "[Y,X]"},
+		Edits:  []string{"[X]", "[Y,X]", "[X,Y]", "[Y',X]", "[Y,X,Z]"},
+		Others: []string{"Y", "Y'", "W", "W'", "Z"},
+	})
+	// 2b. the same with a memory-adaptive threshold (memory reading below the low water mark: 2 per second);
+	// every field of such a rule differs from a plain rule's zero values
+	mx := func() *flow.Rule {
+		return &flow.Rule{ID: "X", Resource: "r", TokenCalculateStrategy: flow.MemoryAdaptive, ControlBehavior: flow.Throttling, MaxQueueingTimeMs: 600,
+			LowMemUsageThreshold: 2, HighMemUsageThreshold: 1, MemLowWaterMarkBytes: 1024, MemHighWaterMarkBytes: 2048}
+	}
+	out = append(out, &subject{
+		Name: "flow-throttling-memory-adaptive",
+		Ops:  []string{"req", "tick(1)", "tick(300)", "tick(1000)"},
+		Apply: func(st *runState, op int) string {
+			return []func() string{func() string { return reqObs(st, "r") }, tickOp(1), tickOp(300), tickOp(1000)}[op]()
+		},
+		Load: func(edit string, per bool) {
+			system_metric.SetSystemMemoryUsage(0)
+			loadFlow(flowRules(edit, mx), per)
+		},
 		Init:   []string{"[X]", "[Y,X]"},
 		Edits:  []string{"[X]", "[Y,X]", "[X,Y]", "[Y',X]", "[Y,X,Z]"},
 		Others: []string{"Y", "Y'", "W", "W'", "Z"},
